@@ -36,7 +36,7 @@ def run(tier: str) -> int:
     else:
         r5 = sc.tables(wd, "RND", rnd_seed=500 + seed(), rndn=5, rndk=6)[0]
         recs += r5["recs"]
-    n_orders = 2
+    n_orders = 3
     stats, fails = sc.replay(wd, "dsep", recs, n_orders)
     seen = set()
     for f in fails:
